@@ -13,7 +13,10 @@ PROP = dict(
         legs=[dict(name="c02_queue", src=["c02_queue.c"], libs=["mptcore"], batch=64,
                    floors={"mpt_queue_push": 100000, "mpt_queue_recv": 100000, "mpt_message_get": 50000,
                            "recv:message": 50000, "history:enc-wrapped": 1000, "history:dec-wrapped": 1000,
-                           "history:frame-in-several-segments": 2000})],
+                           "history:frame-in-several-segments": 2000}),
+              dict(name="c02_stream", src=["c02_stream.c"], libs=["mptio", "mptcore"], batch=64,
+                   floors={"mpt_stream_push": 20000, "mpt_stream_dispatch": 20000, "dispatch:callback": 20000,
+                           "history:frame-in-several-segments": 1000})],
         rule=("case = one history: framing, encode/decode ring capacity and start offset, 5..60 messages with unique ids, "
               "PRNG schedule of push piece / terminate / move k finished bytes / receive / shift; non-trivial = at least 3 "
               "messages delivered, a ring wrapped at least once and at least one frame reached the reader in several segments; "
